@@ -22,13 +22,22 @@ def ceil_log2(n):
 def gen_layout(rnd, tier):
     dw = rnd.choice([4, 8, 8, 16, 32])
     aw = rnd.randint(2, 6)
-    style = rnd.choice(["natural", "natural", "packed", "unaligned", "padded"])
+    style = rnd.choice(["natural", "natural", "packed", "unaligned", "padded", "natural", "packed", "many", "wide"])
     regs = []
     cur = 0
+    if style in ("many", "wide"):
+        aw = max(aw, 5)
     top = 1 << aw
-    for i in range(rnd.randint(1, 6)):
+    # many: 7-16 mostly one-word, mostly readable registers (wide fan-ins into one shadow chunk);
+    # wide: registers of 5-15 bus words
+    for i in range(rnd.randint(7, 16) if style == "many" else rnd.randint(1, 6)):
         w = rnd.choice([0, 1, dw - 1, dw, dw + 1, 2 * dw, 3 * dw + 2, rnd.randint(0, 4 * dw + 3)])
         acc = rnd.choice(["r", "w", "rw", "rw"])
+        if style == "many":
+            w = rnd.choice([dw, dw, dw, dw - 1, 1, 2 * dw])
+            acc = rnd.choice(["r", "rw", "rw", "rw", "w"])
+        elif style == "wide" and rnd.random() < 0.6:
+            w = rnd.randint(4 * dw + 1, 15 * dw)
         need = max(1, (w + dw - 1) // dw)
         size = need
         if style == "padded" or rnd.random() < 0.15:
@@ -226,7 +235,11 @@ def build(cfg):
         assert got == (s, e), (got, s, e)
         regs.append(r)
     if mux is None:
+        # a search through the map that stops at its first hit comes before the multiplexer is built
+        next(iter(mm.resources()), None); next(iter(mm.all_resources()), None)
         mux = csr.Multiplexer(mm, shadow_overlaps=cfg["ov"])
+    else:
+        next(iter(mm.resources()), None)
     return mux, regs
 
 
